@@ -229,9 +229,11 @@ inline void protect_process() {
   setrlimit(RLIMIT_AS, &rl);
   std::signal(SIGALRM, vf::crash_handler);
 }
+inline bool& in_child_process() { static bool b = false; return b; }
+inline int& child_timeouts() { static int n = 0; return n; }   // isolated runs killed by their alarm so far
 struct Watchdog {
-  Watchdog() { alarm(10); }
-  ~Watchdog() { alarm(0); }
+  Watchdog() { if (!in_child_process()) alarm(10); }
+  ~Watchdog() { if (!in_child_process()) alarm(0); }
 };
 
 template <class F> inline Run guarded(F&& f) {
@@ -389,7 +391,8 @@ inline Run run_form_isolated(const std::string& form, const Input& in, bool none
   if (pid == 0) {
     close(fd[0]);
     for (int sg : {SIGSEGV, SIGABRT, SIGFPE, SIGBUS, SIGILL, SIGALRM}) std::signal(sg, SIG_DFL);
-    alarm(5);   // a run takes milliseconds; an engine that does not terminate is killed (reported as signal 14)
+    in_child_process() = true;
+    alarm(6);   // a run takes milliseconds; an engine that does not terminate is killed (reported as signal 14)
     Run r = run_form(form, in, none_as_max);
     std::string js = bj::serialize(jrun(r));
     std::size_t off = 0;
@@ -403,7 +406,10 @@ inline Run run_form_isolated(const std::string& form, const Input& in, bool none
   close(fd[0]);
   int st = 0;
   waitpid(pid, &st, 0);
-  if (WIFSIGNALED(st)) { Run r; r.exception = "crash: signal " + std::to_string(WTERMSIG(st)); return r; }
+  if (WIFSIGNALED(st)) {
+    if (WTERMSIG(st) == SIGALRM) ++child_timeouts();
+    Run r; r.exception = "crash: signal " + std::to_string(WTERMSIG(st)); return r;
+  }
   try { return run_of_json(bj::parse(js).as_object()); }
   catch (...) { Run r; r.exception = "harness: unreadable result of the child process"; return r; }
 }
